@@ -64,11 +64,65 @@ fn c18_one(s: &[u8], w: usize, m: usize) -> Option<Vec<(String, String)>> {
     }
 }
 
+/// two iterators alive at the same time on one thread, pulled alternately: each must still hand out its own runs
+fn pair_runs(kmin: bool, s1: &[u8], s2: &[u8], w: usize, m: usize) -> Option<Vec<(String, String)>> {
+    let (a, b) = (s1.to_vec(), s2.to_vec());
+    let got = guarded(move || {
+        let mut o1: Vec<(u64, usize, usize)> = Vec::new();
+        let mut o2: Vec<(u64, usize, usize)> = Vec::new();
+        if kmin {
+            let mut g1 = KmerMinimiserGenerator::new(&a, w, m);
+            let mut g2 = KmerMinimiserGenerator::new(&b, w, m);
+            for _ in 0..a.len() + b.len() + 6 {
+                let x = g1.next(); let y = g2.next();
+                if let Some(x) = &x { o1.push((x.0, x.1, x.2)); }
+                if let Some(y) = &y { o2.push((y.0, y.1, y.2)); }
+                if x.is_none() && y.is_none() { break; }
+            }
+        } else {
+            let mut g1 = MinimiserGenerator::new(&a, w, m);
+            let mut g2 = MinimiserGenerator::new(&b, w, m);
+            for _ in 0..a.len() + b.len() + 6 {
+                let x = g1.next(); let y = g2.next();
+                if let Some(x) = x { o1.push(x); }
+                if let Some(y) = y { o2.push(y); }
+                if x.is_none() && y.is_none() { break; }
+            }
+        }
+        (o1, o2)
+    });
+    let why = match got {
+        Err(e) => format!("panic: {}", e),
+        Ok((o1, o2)) => {
+            if o1 != runs_spec(s1, w, m) { format!("first of two interleaved iterators: runs {:?}, expected {:?}", &o1[..o1.len().min(6)], &runs_spec(s1, w, m)[..runs_spec(s1, w, m).len().min(6)]) }
+            else if o2 != runs_spec(s2, w, m) { format!("second of two interleaved iterators: runs {:?}, expected {:?}", &o2[..o2.len().min(6)], &runs_spec(s2, w, m)[..runs_spec(s2, w, m).len().min(6)]) }
+            else { String::new() }
+        }
+    };
+    if why.is_empty() { None } else {
+        Some(vec![("seq".into(), show(s1)), ("seq2".into(), show(s2)), ("w".into(), w.to_string()), ("m".into(), m.to_string()), ("why".into(), why)])
+    }
+}
+
 fn drive(o: &Opts, one: fn(&[u8], usize, usize) -> Option<Vec<(String, String)>>, wmax: usize) -> Outcome {
     let mut cases = 0u64;
     if let Some(inp) = &o.input {
         let s = unshow(&inp["seq"]);
+        if let Some(s2) = inp.get("seq2") {
+            return Outcome { cases: 1, witness: pair_runs(wmax == 31, &s, &unshow(s2), inp["w"].parse().unwrap(), inp["m"].parse().unwrap()) };
+        }
         return Outcome { cases: 1, witness: one(&s, inp["w"].parse().unwrap(), inp["m"].parse().unwrap()) };
+    }
+    {
+        let mut rng = Rng(o.seed.wrapping_mul(0x2545F4914F6CDD1D) | 1);
+        for _ in 0..300 {
+            let m = 1 + rng.below(8) as usize;
+            let w = (m + rng.below(10) as usize).min(wmax);
+            let (l1, l2) = (rng.below(80) as usize, rng.below(80) as usize);
+            let (s1, s2) = (random_seq(&mut rng, l1, 20), random_seq(&mut rng, l2, 20));
+            cases += 2;
+            if let Some(wt) = pair_runs(wmax == 31, &s1, &s2, w, m) { return Outcome { cases, witness: Some(wt) }; }
+        }
     }
     let alpha = b"ACGTN";
     let maxlen = if o.thorough { 9 } else { 8 };
